@@ -149,7 +149,8 @@ pub fn sum_may_overflow(q: &Query, rows: &[BTreeMap<String, Cell>]) -> bool {
         let mut total: u128 = 0;
         for r in rows {
             if let Some(f) = &q.filter {
-                if !matches!(eval::eval(f, r), Ok(Cell::Int(1))) {
+                // a row whose filter the reference cannot decide may or may not be summed: count it
+                if !matches!(eval::eval(f, r), Ok(Cell::Int(1)) | Err(_)) {
                     continue;
                 }
             }
@@ -341,6 +342,9 @@ pub fn check(case: &Case, env: &mut CaseEnv) -> Result<(), Failure> {
                 return Err(Failure::mismatch(format!("{}: exact result overflows i64 but the engine returned {:?}", ctx, out.rows_any().iter().take(4).collect::<Vec<_>>())).tag("silent_overflow"));
             }
             (Err(QErr::Overflow), Err(EvalErr::Overflow)) => {}
+            // the reference cannot judge the query (e.g. an integer/float comparison that depends on rounding): an
+            // overflow error is not evidence of anything
+            (Err(QErr::Overflow), Err(EvalErr::Type(_))) => env.declined(),
             (Err(QErr::Overflow), Ok(_)) if sum_may_overflow(&gq.q, &rows) => {
                 // the total fits, but a partial sum (in whatever order the engine adds) may not: an overflow
                 // error is one of the two outcomes C06 allows for SUM
